@@ -370,6 +370,9 @@ var mgTargets = []mgTarget{
 	{"pkg/session/store_memory.go", "memorySessionStore.MakeLock", "memoryMakeLock"},
 	{"pkg/session/lock.go", "RedisLock.Acquire", "redisLockAcquire"},
 	{"pkg/session/lock.go", "RedisLock.Release", "redisLockRelease"},
+	{"pkg/retry/retry.go", "fibonacci", "retryFibonacci"},
+	{"pkg/retry/retry.go", "Do", "retryDo"},
+	{"pkg/retry/retry.go", "DoValue", "retryDoValue"},
 }
 
 var hdTargets = []mgTarget{
